@@ -1011,6 +1011,14 @@ impl IoUring {
     }
 
     pub fn get_next_cqe(&mut self) -> Option<&IoUringCompletionQueueEntry> {
+        // The slot of the entry handed out by the previous call is given back to the kernel only
+        // now: that reference borrowed `self`, so it cannot be alive any more. Releasing the slot
+        // before returning the reference would let the kernel overwrite the entry while the
+        // caller is still reading it.
+        if self.completion_queue.release_pending {
+            self.completion_queue.release_pending = false;
+            self.completion_queue.advance(1);
+        }
         let shift = u32::from(self.flags.contains(IoUringParamFlags::IORING_SETUP_CQE32));
         let tail = self.completion_queue.acquire_ktail();
         let head = self.completion_queue.acquire_khead();
@@ -1019,7 +1027,7 @@ impl IoUring {
         }
         let ind = ((head & self.completion_queue.ring_mask) << shift) as usize;
         let cqe = unsafe { self.completion_queue.entries.as_ptr().add(ind) };
-        self.completion_queue.advance(1);
+        self.completion_queue.release_pending = true;
         unsafe { cqe.as_ref() }
     }
 }
@@ -1113,6 +1121,8 @@ pub(crate) struct UringCompletionQueue {
     pub(crate) ring_mask: u32,
     pub(crate) ring_entries: u32,
     pub(crate) entries: NonNull<IoUringCompletionQueueEntry>,
+    /// The entry last returned by `get_next_cqe` still occupies its slot
+    pub(crate) release_pending: bool,
 }
 
 #[expect(dead_code)]
